@@ -243,6 +243,9 @@ var builtinTypes = map[string]reflect.Type{
 type extLookup struct {
 	vals  map[string]reflect.Value
 	types map[string]reflect.Type
+	// zeroOnMiss: on a miss the lookup returns the zero reflect.Value / a nil reflect.Type next to
+	// its error (a host implementation need not return env.NilValue / env.NilType)
+	zeroOnMiss bool
 }
 
 var errExtUnknown = errors.New("external lookup: unknown name")
@@ -251,12 +254,18 @@ func (x *extLookup) Get(name string) (reflect.Value, error) {
 	if v, ok := x.vals[name]; ok {
 		return v, nil
 	}
+	if x.zeroOnMiss {
+		return reflect.Value{}, errExtUnknown
+	}
 	return env.NilValue, errExtUnknown
 }
 
 func (x *extLookup) Type(name string) (reflect.Type, error) {
 	if t, ok := x.types[name]; ok {
 		return t, nil
+	}
+	if x.zeroOnMiss {
+		return nil, errExtUnknown
 	}
 	return env.NilType, errExtUnknown
 }
@@ -265,7 +274,7 @@ func (x *extLookup) Type(name string) (reflect.Type, error) {
 // They never know dotted names and never hold scopes.
 func newExts() [4]*mext {
 	mk := func(id int, vals map[string]string, addressable string, types map[string]int) *mext {
-		m := &mext{id: id, vals: map[string]mval{}, types: map[string]reflect.Type{}, real: &extLookup{vals: map[string]reflect.Value{}, types: map[string]reflect.Type{}}}
+		m := &mext{id: id, vals: map[string]mval{}, types: map[string]reflect.Type{}, real: &extLookup{vals: map[string]reflect.Value{}, types: map[string]reflect.Type{}, zeroOnMiss: id%2 == 0}}
 		for k, s := range vals {
 			if k == addressable {
 				p := new(string)
